@@ -988,61 +988,44 @@ Theorem slg_length_error_string : forall A (cr : A -> str -> res sres) solve c (
 Proof. intros. unfold check_response. apply slg_length_error; assumption. Qed.
 
 (* ------------------------------------------------------------------------------------------------
-   the executable model (solver = Munkres.computeZ on integer-scaled costs): optimality is C06's theorem,
-   and the model returns a grade whenever n * D stays below sys.maxsize, D a common denominator of the credits
+   the executable model (solver = Munkres.computeZ on integer-scaled costs): optimality is C06's theorem, and so is
+   termination (for arbitrary integer costs): the model ALWAYS returns a grade when no input error is due
    ------------------------------------------------------------------------------------------------ *)
 Section Returns.
   Variable A : Type.
   Variable cr : A -> str -> res sres.
 
-  Lemma matrix_entries_from : forall pa ps mat row r, result_matrix cr pa ps = inl mat -> In row mat -> In r row ->
-    exists oa oi, In oa pa /\ In oi ps /\ checker cr oa oi = inl r.
-  Proof.
-    intros pa ps mat row r H Hrow Hr. pose proof (matrix_rows A cr pa ps mat H) as F.
-    destruct (Forall2_in_r _ _ _ F row Hrow) as (oi & Hoi & Erow). apply mapM_Forall2 in Erow.
-    destruct (Forall2_in_r _ _ _ Erow r Hr) as (oa & Hoa & E). exists oa, oi. auto.
-  Qed.
-
-  Lemma in_pad : forall {T} n (l : list T) o, In o (pad n l) -> o = None \/ exists x, o = Some x /\ In x l.
-  Proof.
-    intros T n l o H. unfold pad in H. apply in_app_or in H. destruct H as [H|H].
-    - apply in_map_iff in H. destruct H as (x & <- & Hx). right. exists x. auto.
-    - apply repeat_spec in H. left. exact H.
-  Qed.
-
   Theorem slg_returns : (forall a it, exists r, cr a it = inl r) ->
-    forall c (a : alt A) (li : list str) (D : Z), unit_on cr (al_items a) ->
-      (forall x it r, In x (al_items a) -> cr x it = inl r -> (Zpos (Qden (sr_grade r)) | D)%Z) ->
-      (0 < D)%Z -> (Z.of_nat (Nat.max (length (al_items a)) (length li)) * D < zmaxsize)%Z ->
+    forall c (a : alt A) (li : list str),
       (1 <= Nat.max (length (al_items a)) (length li))%nat ->
       (c_length_error c = false \/ length (al_items a) = length li) ->
       (c_missing_error c = false \/ Forall (fun it => is_blank it = false) li) ->
       exists r, check_items cr solveZ c a li = inl r.
   Proof.
-    intros T c a li D U HD D0 HB Hn HL HM.
+    intros T c a li Hn HL HM.
     destruct (slg_graded_or_solver A cr solveZ T c a li HL HM) as [K | [Ho K]]; [exact K|]. exfalso.
     rewrite (slg_graded_otherwise A cr solveZ c a li HL HM) in K. unfold grade_list in K. rewrite Ho in K.
     unfold optimal_order in K. set (n := Nat.max (length (al_items a)) (length li)) in *.
     destruct (result_matrix cr (pad n (al_items a)) (pad n li)) as [mat|e] eqn:Hmat.
     - destruct (solveZ (cost_matrix mat)) eqn:S; [discriminate|].
       destruct (padded_shape A cr (al_items a) li n mat eq_refl Hmat) as [L F].
-      apply (solveZ_returns n (cost_matrix mat) D Hn); try assumption.
+      apply (solveZ_returns n (cost_matrix mat) Hn); try assumption.
       + unfold cost_matrix. rewrite map_length. exact L.
       + unfold cost_matrix. apply Forall_forall. intros row Hrow. apply in_map_iff in Hrow. destruct Hrow as (r0 & <- & H0).
         rewrite map_length. rewrite Forall_forall in F. apply F. exact H0.
-      + intros row q Hrow Hq. unfold cost_matrix in Hrow. apply in_map_iff in Hrow. destruct Hrow as (row0 & <- & Hrow0).
-        apply in_map_iff in Hq. destruct Hq as (r & <- & Hr).
-        destruct (matrix_entries_from _ _ mat row0 r Hmat Hrow0 Hr) as (oa & oi & Hoa & Hoi & E).
-        assert (G : 0 <= sr_grade r <= 1 /\ (Zpos (Qden (sr_grade r)) | D)%Z).
-        { unfold checker in E. destruct oa as [x|]; destruct oi as [it|];
-            try (inversion E; subst r; simpl; split; [lra | apply Z.divide_1_l]).
-          destruct (in_pad n (al_items a) (Some x) Hoa) as [N | (x' & Ex & Hx)]; [discriminate|]. inversion Ex; subst x'.
-          split; [apply (U x it r Hx E) | apply (HD x it r Hx E)]. }
-        destruct G as [G1 G2]. split; [lra|].
-        assert (Eden : Qden (1 - sr_grade r) = Qden (sr_grade r)) by (destruct (sr_grade r); reflexivity).
-        rewrite Eden. exact G2.
     - destruct (mapM_inr _ _ e Hmat) as (oi & _ & Erow). destruct (mapM_inr _ _ e Erow) as (oa & _ & E).
       destruct (chk_total A cr T (oa, oi)) as (r & Er). unfold chk in Er. simpl in Er. congruence.
+  Qed.
+
+  (* through the string: a split never yields the empty list, so the size condition is automatic *)
+  Theorem slg_returns_string : (forall a it, exists r, cr a it = inl r) ->
+    forall c (a : alt A) (s : str),
+      (c_length_error c = false \/ length (al_items a) = length (split (c_delim c) s)) ->
+      (c_missing_error c = false \/ Forall (fun it => is_blank it = false) (split (c_delim c) s)) ->
+      exists r, check_response cr solveZ c a s = inl r.
+  Proof.
+    intros T c a s HL HM. unfold check_response. apply slg_returns; try assumption.
+    pose proof (split_length_pos (c_delim c) s). lia.
   Qed.
 End Returns.
 
